@@ -201,6 +201,11 @@ async fn workload(mut sim: Sim, o: Opts) -> Result<Value, String> {
         quic(&mut config).max_idle_timeout_ms = Some(30_000);
         quic(&mut config).keep_alive_interval_ms = Some(5_000);
         quic(&mut config).max_concurrent_bidi_streams = stream_limit;
+        if o.mode == "mix" || o.mode == "replace" {
+            // generous defaults that never fire: the layers that apply them must leave the request alone
+            config.inbound_request_timeout_ms = [None, Some(90_000)][sim.rng.gen_range(0..2)];
+            config.outbound_request_timeout_ms = [None, Some(60_000), Some(120_000)][sim.rng.gen_range(0..3)];
+        }
         if o.mode == "timeouts" {
             config.inbound_request_timeout_ms = [None, Some(300), Some(800)][sim.rng.gen_range(0..3)];
             config.outbound_request_timeout_ms = [None, Some(400), Some(900)][sim.rng.gen_range(0..3)];
@@ -268,6 +273,19 @@ async fn workload(mut sim: Sim, o: Opts) -> Result<Value, String> {
         };
         match o.mode.as_str() {
             "mix" => {
+                // routes are arbitrary strings: the handler must see exactly the one that was sent
+                if rng.gen_bool(0.2) {
+                    let odd = match rng.gen_range(0..7) {
+                        0 => String::new(),
+                        1 => "/".to_owned(),
+                        2 => format!("r{nonce}"),
+                        3 => format!("//r{nonce}//"),
+                        4 => format!(" /r{nonce}/a b?x=1&y=2#frag "),
+                        5 => format!("/R{nonce}/UPPER/lower"),
+                        _ => format!("/r{nonce}/{}", "long/".repeat(60)),
+                    };
+                    *req.route_mut() = odd;
+                }
                 if rng.gen_bool(0.7) {
                     req.headers_mut()
                         .insert("delay-ms".into(), rng.gen_range(0..400).to_string());
@@ -286,6 +304,12 @@ async fn workload(mut sim: Sim, o: Opts) -> Result<Value, String> {
                     3 => call.abandon_at = Some("rpc.finish"),
                     4..=7 => call.abandon_after = Some(rng.gen_range(0..150)),
                     _ => call.must_succeed = true,
+                }
+                // a deadline of its own does not keep an abandoned call's handler alive
+                match rng.gen_range(0..5) {
+                    0 => req.set_timeout(Duration::from_secs(20)),
+                    1 => req.set_timeout(Duration::from_secs(120)),
+                    _ => {}
                 }
                 if call.abandon_at.is_some() || call.abandon_after.is_some() {
                     abandoned += 1;
